@@ -6,6 +6,7 @@ From Via Require Import M_Char M_Parse M_Receive P_Parse.
 From Via Require Import P_Frag P_FragC P_Term P_TermC.
 From Via Require Import M_Imp M_Loop M_Hdr M_Msg M_Chunk Gen_Parse P_Imp P_Loop P_Hdr P_Msg P_C06b P_Chunk.
 From Via Require Import M_Client P_Client.
+From Via Require Import M_Query M_Recv P_C06b P_Chunk P_Recv P_RecvC.
 Local Open Scope N_scope.
 
 Theorem C07_status_line_fragments : forall L a r b, sl_valid r = false ->
@@ -204,3 +205,33 @@ Theorem C07_response_reset_is_the_source : forall L fuel q inp,
   Some (LNormal, mk_mst (rp_store rp_init) inp).
 Proof. exact rp_clear_is_the_source. Qed.
 Print Assumptions C07_response_reset_is_the_source.
+
+(* ---- response_receiver::receive itself ----
+   The whole function - head, Content-Length body (a body without a length up to max_body_size_), chunked branch - and
+   clear() are translated from clang's AST on every run (terms of M_Recv.v whose calls run the translated functions of
+   the layers below), and the model's creceive, about which the theorems of this file speak, is proved to return what
+   the translated body returns - Rx value, receiver afterwards, input left unread - for every receiver whose parts
+   satisfy the invariants the connection keeps (rc_inv, hd_ok), limits below 2^63, every input, every sufficient fuel,
+   and every call in which the model does not report its undefined case (RX_UB: `iter + required` with a negative
+   `required`, i.e. more body collected than announced; the translated source is `None` there). *)
+Theorem C07_receive_is_the_source : forall cfg c buf fuel,
+  snd (creceive cfg c buf) <> RX_UB ->
+  hd_ok (rp_headers (cv_rsp c)) -> rc_inv (cc_lim cfg) (cv_chunk c) -> hd_ok (rc_trailers (cv_chunk c)) ->
+  small (ck_max (rc_hdr (cv_chunk c))) -> small (cc_max_body cfg) -> small (nlen (cv_body c)) ->
+  (length buf + 2 <= fuel)%nat ->
+  rrun (sl_lim (cc_lim cfg)) (fl_lim (cc_lim cfg)) (hd_lim (cc_lim cfg)) (ck_lim (cc_lim cfg)) (ccode_of (cc_lim cfg))
+       (cc_max_body cfg) false false cv_clear_src fuel cv_receive_src (cv_store c) buf =
+  (let '(c', rest, r) := creceive cfg c buf in
+   match rx_of r with Some x => Some (x, cv_store c', rest) | None => None end).
+Proof. exact creceive_is_the_source. Qed.
+(* the translated function really runs: a complete response with a body of three bytes, one byte more in the buffer *)
+Example C07_receive_source_example :
+  let cfg := mk_ccfg (mk_limits 8190 8 100 65534 1024 8 65534 65534 false) 1048576 1048576 in
+  match rrun (sl_lim (cc_lim cfg)) (fl_lim (cc_lim cfg)) (hd_lim (cc_lim cfg)) (ck_lim (cc_lim cfg)) (ccode_of (cc_lim cfg))
+             (cc_max_body cfg) false false cv_clear_src 80 cv_receive_src (cv_store (cv_init cfg))
+             [72;84;84;80;47;49;46;49;32;50;48;48;32;79;75;13;10;67;111;110;116;101;110;116;45;76;101;110;103;116;104;58;32;51;13;10;13;10;97;98;99;72] with
+  | Some (VX_VALID, st, rest) => rs_body st = [97;98;99] /\ rest = [72]
+  | _ => False
+  end.
+Proof. vm_compute. split; reflexivity. Qed.
+Print Assumptions C07_receive_is_the_source.
